@@ -296,21 +296,29 @@ fn exhaustive(ctx: &Ctx) -> Stats {
                 Tier::Quick => vec![AppState::Idle, AppState::BusySends, AppState::NoHandshake],
                 Tier::Thorough => vec![AppState::Idle, AppState::BusySends, AppState::NoHandshake],
             };
+            // (every connection costs about 10 KB of resident memory that the runtime does not give back: the thorough tier
+            // enumerates length 4 over the core of the alphabet only, so that it stays within a few GB)
+            let core: Vec<u8> = templates(role.is_v5())
+                .iter()
+                .enumerate()
+                .filter(|(_, (n, _))| ["PUB1-1", "PUB2-1", "PUBACK-1", "PUBREC-1", "PUBREL-1", "PUBCOMP-1", "SUBSCRIBE-1", "SUBACK-1", "UNSUBSCRIBE-2", "UNSUBACK-2", "PINGREQ", "DISCONNECT", "PUB1-1-head", "payload-tail"].contains(n))
+                .map(|(i, _)| i as u8)
+                .collect();
             for l in 1..=len {
-                let total = a.pow(l as u32);
+                let (alpha, total): (Vec<u8>, usize) = if l == 4 { (core.clone(), core.len().pow(4)) } else { ((0..a as u8).collect(), a.pow(l as u32)) };
+                let al = alpha.len();
                 for state in &states {
-                    // shorter sequences also against the remaining busy states
                     let mut idx = shard;
                     while idx < total {
                         let mut x = idx;
-                        let seq: Vec<u8> = (0..l).map(|_| { let v = (x % a) as u8; x /= a; v }).collect();
+                        let seq: Vec<u8> = (0..l).map(|_| { let v = alpha[x % al]; x /= al; v }).collect();
                         work.push(Case { role, state: *state, seq });
                         idx += WORKERS;
                     }
                 }
             }
             // length <= 2 (quick) / 3 (thorough) against the other busy states
-            let l2 = len - 1;
+            let l2 = len.min(3) - usize::from(len == 3);
             for l in 1..=l2 {
                 let total = a.pow(l as u32);
                 for state in [AppState::BusyReceipt, AppState::BusyHandlers, AppState::BusySendsRot(1), AppState::BusySendsRot(2), AppState::BusySendsRot(3)] {
@@ -350,7 +358,7 @@ pub fn run(ctx: &Ctx, started: Instant) -> i32 {
     let report = Report {
         level: "exploration",
         rule: "alphabet of 26 (v3) / 30 (v5) well-formed packet templates (every packet type either peer could emit, ids 1/2, PUBLISH QoS 0/1/2, a PUBLISH head whose payload is still owed and a payload tail, \
-               acknowledgements of every type, CONNECT/CONNACK, DISCONNECT with/without session expiry, AUTH, PING both directions); every sequence of length <=3 (thorough <=4) after the handshake against an idle \
+               acknowledgements of every type, CONNECT/CONNACK, DISCONNECT with/without session expiry, AUTH, PING both directions); every sequence of length <=3 (thorough: also length 4 over the 14 core templates) after the handshake against an idle \
                application and against outstanding QoS1/QoS2/subscribe/unsubscribe sends, and replacing the handshake; length <=2 (3) against a held QoS 2 receipt, two gated inbound handlers and the outstanding sends in the three rotated orders (each kind oldest); random sequences of \
                4..12 packets. Oracle: no panic in any task (application futures are polled by the driver), settle reaches a fixed point, at quiescence the connection is ended (at most one Stop) or alive and \
                answering a probe, all input consumed, after the peer closes the connection task finishes and every pending send resolves. Non-trivial = the sequence contains a packet unexpected in its protocol state; \
